@@ -288,6 +288,22 @@ func (g *gen) directive(label string) string {
 	if rapid.Bool().Draw(g.t, label+"dirn") {
 		name = "include"
 	}
+	first := g.oneDirective(label, name)
+	// @skip and @include together on one node (each at most once: they are not repeatable)
+	// (not next to @defer: a third directive on the node makes normalization miss the use of a
+	// variable in the later @skip/@include - finding C10-variable-unused-with-three-directives)
+	if rapid.IntRange(0, 2).Draw(g.t, label+"dir2") == 0 && (!g.o.Defer || g.allow("three-directives-with-defer")) {
+		other := "include"
+		if name == "include" {
+			other = "skip"
+		}
+		g.feat["two-directives-on-one-node"] = true
+		return first + g.oneDirective(label+"2", other)
+	}
+	return first
+}
+
+func (g *gen) oneDirective(label, name string) string {
 	if !g.o.NoVariables && rapid.IntRange(0, 2).Draw(g.t, label+"dirvar") == 0 {
 		v := varDef{name: g.next("b"), typ: "Boolean!", present: true}
 		b := rapid.Bool().Draw(g.t, label+"dirval")
